@@ -60,7 +60,7 @@ try:
             shutil.copy(dp, os.path.join(out_dir, os.path.basename(dp)))
             meta = json.load(open(os.path.join(d, "meta.json"))) if os.path.exists(os.path.join(d, "meta.json")) else {}
             meta["confirmed_by_framework_author"] = {"suite_passes_with_patch": True, "demo_fails_with_patch": True, "demo_passes_without_patch": True,
-                                                    "demo_destination": dest, "demo_command": cmd, "round": 2}
+                                                    "demo_destination": dest, "demo_command": cmd, "round": int(os.environ.get("SEED_ROUND", "3"))}
             json.dump(meta, open(os.path.join(out_dir, "meta.json"), "w"), indent=1)
 finally:
     subprocess.run("git -C /repo worktree remove --force %s; git -C /repo worktree prune" % WT, shell=True)
